@@ -3,7 +3,7 @@
 #  (1) the pinned suite passes with the change, (2) the demo fails with it, (3) the demo passes without it;
 # then archive patch.diff, demo and README under /verif/seeded/<name>/ . Nothing is written to /repo.
 set -u
-ID=$1; NAME=$2; WT=/tmp/seed_$ID; OUT=/tmp/seed_${ID}_out; DST=/verif/seeded/$NAME
+ID=$1; NAME=$2; PFX=${3:-seed}; WT=/tmp/${PFX}_$ID; OUT=/tmp/${PFX}_${ID}_out; DST=/verif/seeded/$NAME
 [ -f $OUT/patch.diff ] || { echo "no patch"; exit 2; }
 cd $WT
 git checkout -q -- . ; git apply $OUT/patch.diff || { echo "patch does not apply"; exit 2; }
@@ -11,7 +11,7 @@ git checkout -q -- . ; git apply $OUT/patch.diff || { echo "patch does not apply
 cmake --build _b >/dev/null 2>&1 || { echo "build with change FAILED"; exit 2; }
 SUITE=$(ctest --test-dir _b -j8 --timeout 900 2>&1 | grep "tests passed")
 echo "suite with change: $SUITE"
-BUILD=$(grep -m1 -E "^(clang|gcc|cc|g\+\+)" $OUT/build.txt)
+BUILD=$(grep -m1 -E "(^|&& *)(clang|gcc|cc|g\+\+)[-0-9]* " $OUT/build.txt | sed -E "s/^.*&& *((clang|gcc|cc|g\+\+))/\1/")
 echo "demo build: $BUILD"
 (cd $OUT && eval "$BUILD") || { echo "demo build failed"; exit 2; }
 DEMO=$(echo "$BUILD" | sed -n 's/.* -o \([^ ]*\).*/\1/p'); case "$DEMO" in /*) ;; *) DEMO=$OUT/$DEMO;; esac
